@@ -1405,6 +1405,13 @@ class SSHClientProcess(SSHProcess[AnyStr], SSHClientStreamSession[AnyStr]):
         if stdin:
             await self._create_reader(stdin, bufsize, send_eof, recv_eof)
 
+        if stderr == STDOUT:
+            # Merge already buffered stderr output into stdout before
+            # a new stdout target is fed its buffered output and EOF
+            await self._create_writer(stderr, bufsize, send_eof, recv_eof,
+                                      EXTENDED_DATA_STDERR)
+            stderr = None
+
         if stdout:
             await self._create_writer(stdout, bufsize, send_eof, recv_eof)
 
